@@ -1013,6 +1013,12 @@ func (fv *FuncVerifier) callContract(st *State, e *ast.CallExpr, fn *types.Func,
 		for h := range hs {
 			fv.heapClosure(h, st.heaps[h], na)
 		}
+	} else if c.Flags["allocs"] != "" {
+		// a callee that changes nothing the caller can see but hands out objects it created (through ghost state):
+		// the allocation mark moves, so that allocated(x) in its postcondition speaks about the state after the call
+		na := fv.fresh("alloc", "Int")
+		fv.assume(st, "(>= "+na+" "+st.alloc+")")
+		st.alloc = na
 	}
 	// ghost variables the callee may update
 	for _, g := range c.Updates {
